@@ -229,6 +229,20 @@ def impl_1d(c):
             it.compute_interpolant(u * 2.0 ** k, s)
             ok = ok and bool(np.array_equal(s.coeffs, cf * 2.0 ** k))
         out['scale_ok'].append(ok)
+    # the interpolant read back at its interpolation points through the in-place entry point, into arrays held as views
+    # (a column of a table, every second cell, the real part of a complex buffer): the same values as Spline1D.eval
+    xs_ = np.array(b.greville, dtype=float)
+    ref_ = np.array(s.eval(xs_), dtype=float)
+    ev = {}
+    for nm_ in ('column', 'every-second', 'real-of-complex'):
+        y_ = {'column': lambda: np.full((len(xs_), 3), np.nan)[:, 1], 'every-second': lambda: np.full(2 * len(xs_), np.nan)[::2],
+              'real-of-complex': lambda: np.full(len(xs_), np.nan + 0j).real}[nm_]()
+        try:
+            s.eval_vector(xs_, y_)
+            ev[nm_] = 0.0 if np.array_equal(y_, ref_) else float(np.nan_to_num(np.abs(y_ - ref_), nan=np.inf).max())
+        except Exception as e:
+            ev[nm_] = 'raised %s: %s' % (type(e).__name__, str(e)[:80])
+    out['evalvec'] = ev
     # data type of the interpolator and of the spline it fills need not agree (the Poisson solver fills real and complex
     # splines from a complex interpolator): real data must give the same coefficients through every combination
     u0 = np.array([fl(t) for t in c['data'][0].split()])
@@ -308,6 +322,18 @@ def impl_2d(c):
             out['input_modified'] = True
     it.compute_interpolant(ug, s)
     out['coeffs'] = [qs([ff(v) for v in row]) for row in s.coeffs]
+    x1_, x2_ = np.array(b1.greville, dtype=float), np.array(b2.greville, dtype=float)
+    ref_ = np.array(s.eval(x1_, x2_), dtype=float)
+    ev = {}
+    for nm_ in ('fortran', 'plane', 'transposed-buffer'):
+        y_ = {'fortran': lambda: np.asfortranarray(np.full(ref_.shape, np.nan)), 'plane': lambda: np.full((ref_.shape[0], 2, ref_.shape[1]), np.nan)[:, 1, :],
+              'transposed-buffer': lambda: np.full(ref_.shape[::-1], np.nan).T}[nm_]()
+        try:
+            s.eval_vector(x1_, x2_, y_)
+            ev[nm_] = 0.0 if np.array_equal(y_, ref_) else float(np.nan_to_num(np.abs(y_ - ref_), nan=np.inf).max())
+        except Exception as e:
+            ev[nm_] = 'raised %s: %s' % (type(e).__name__, str(e)[:80])
+    out['evalvec'] = ev
     x0, y0 = float(b1.greville[0]), float(b2.greville[-1])
     out['scalar'] = [qstr(ff(x0)), qstr(ff(y0)), qstr(ff(s.eval(x0, y0)))]
     return out
@@ -557,6 +583,12 @@ def check_1d(chk, c, r, stats):
         if not wrap_ok:
             chk.violation('%s._solve_system_periodic:wrap:%s' % (SITE1, tag),
                           'periodic coefficients are not wrapped: c[n:n+p] != c[0:p] on %s' % tag, rep_j)
+        if j == 0:
+            for nm_, dv_ in sorted(r.get('evalvec', {}).items()):
+                chk.count((spd['breaks'], spd['p'], spd['periodic'], 'evalvec', nm_), stratum='read-back:eval_vector:%s' % nm_)
+                if dv_ != 0.0:
+                    chk.violation('splines.Spline1D.eval_vector:out-array:%s' % nm_, 'the interpolant read back at its interpolation points through Spline1D.eval_vector '
+                                  'into an out array held as %s differs from Spline1D.eval by %s on %s' % (nm_, dv_, tag), dict(rep_j, out_array=nm_))
         if j == 0 and r.get('input_modified') is not None:
             chk.violation('%s.compute_interpolant:input-modified' % SITE1, 'compute_interpolant changed the caller\'s data array (held as a strided view) on %s' % tag, rep_j)
         if not r['scale_ok'][j]:
@@ -696,6 +728,11 @@ def check_2d(chk, c, r, m, stats):
     if not wrap_ok:
         chk.violation('%s.compute_interpolant:wrap:%s' % (SITE2, tag), '2-D periodic coefficients are not wrapped consistently on %s' % tag,
                       dict(rep, observed=r['coeffs']))
+    for nm_, dv_ in sorted(r.get('evalvec', {}).items()):
+        chk.count((tag, n1, n2, 'evalvec', nm_), stratum='read-back:Spline2D.eval_vector:%s' % nm_)
+        if dv_ != 0.0:
+            chk.violation('splines.Spline2D.eval_vector:out-array:%s' % nm_, 'the 2-D interpolant read back through Spline2D.eval_vector into an out array held as %s '
+                          'differs from Spline2D.eval by %s on %s' % (nm_, dv_, tag), dict(rep, out_array=nm_))
     if r.get('input_modified') is not None:
         chk.violation('%s.compute_interpolant:input-modified' % SITE2, 'compute_interpolant changed the caller\'s data array (held as a view) on %s' % tag, rep)
     # the scalar entry point at one grid point
